@@ -55,7 +55,7 @@ def replay(ctx, payload):
     print(json.dumps(payload.get("failure") or payload.get("no_longer_checks"), indent=1)[:4000])
     return 0
 
-LEVEL_TEXT = ("Lean 4 theorems (all histories, unbounded; 76 theorems in Props/C04.lean, C04Full.lean, C04Pending.lean, C04Net.lean) "
+LEVEL_TEXT = ("Lean 4 theorems (all histories, unbounded; 81 theorems in Props/C04.lean, C04Full.lean, C04Pending.lean, C04Net.lean) "
               "about executable models of the solvers' cache/stage/flag state machines (AdjEnvelope, AdjCholDec/AdjGSO, AdjSVD+SVD, "
               "class Adj, LocalNetwork's update cascade); models tied to the C++ by differential correspondence on generated API "
               "histories and a fresh-object oracle on the implementation. One value per (problem, configuration, query): "
